@@ -78,6 +78,10 @@ func c09Configs() map[string]map[string]string {
 		"lib.yml":      tf("  H: lib\n", "", "leaf"),
 		"d1/.keep":     "", "d2/.keep": "",
 	}
+	// globals that use the per-task special variables, compiled concurrently for the task list
+	m["globals-use-task-special-vars/sched-dump"] = map[string]string{
+		"Taskfile.yml": "version: '3'\nvars:\n  WHO: 'who-{{.TASK}}'\nenv:\n  EWHO: 'env-{{.TASK}}'\ntasks:\n  a:\n    cmds:\n      - echo a {{.WHO}}\n  b:\n    cmds:\n      - echo b {{.WHO}}\n  c:\n    cmds:\n      - echo c {{.WHO}}\n",
+	}
 	m["nested-siblings"] = map[string]string{
 		"Taskfile.yml": tf("", "  mid: ./mid.yml\n", "show"),
 		"mid.yml":      tf("  G: mid\n", "  x: ./x.yml\n  y: ./y.yml\n", "t"),
@@ -175,7 +179,7 @@ func c09Units(tier string) []*Unit {
 	}
 	sort.Strings(names)
 	for _, name := range names {
-		sc := &vlab.Scenario{Name: name, Files: cfgs[name], Opts: vlab.Options{SchedSetup: true, DumpOnly: true}}
+		sc := &vlab.Scenario{Name: name, Files: cfgs[name], Opts: vlab.Options{SchedSetup: true, DumpOnly: true, SchedDump: strings.HasSuffix(name, "/sched-dump")}}
 		ref := new(string)
 		bound, shards := 1, 1
 		if tier == "thorough" {
